@@ -15,7 +15,9 @@ pub const PROP: Prop = Prop { id: "C09", spec, run, replay };
 const ALPHA: [&str; 17] = [" ", "\t", "\n", "\"", "'", "\\", "-", "*", "?", "[", "{", "}", "$", "(", "a", "\u{e9}", "."];
 const PIECES: [&str; 8] = ["{}", "x", "{}{}", "a{}b", "{", "}", "{ }", ""];
 const OUTCOMES: [&str; 8] = ["0", "1", "2", "255", "s15", "missing", "noexec", "isdir"];
-const POSITIONS: [&str; 6] = ["alone", "before-printf", "under-not", "left-of-or", "after-false", "after-name-test"];
+const POSITIONS: [&str; 9] = ["alone", "before-printf", "under-not", "left-of-or", "after-false", "after-name-test", "in-group", "under-not-word", "left-of-or-word"];
+/// arguments of CMD that look like words of find's own expression language
+const OPERATOR_LIKE: [&[&str]; 8] = [&["(", "{}", ")"], &[")", "{}"], &["{}", "("], &["!", "{}"], &["-o", "{}", "-a"], &[",", "{}"], &["-print", "{}", "-quit"], &["+", "{}", "{}+"]];
 
 fn spec(t: Tier) -> Spec {
     Spec {
@@ -160,14 +162,20 @@ fn check_case(ctx: &mut Ctx, ns: &[Vec<u8>], c: &Case) -> Option<(String, String
             argv.extend(exec.clone());
             argv.extend(["-printf".to_string(), "T %p\\0".to_string()]);
         }
-        "under-not" => {
-            argv.push("!".into());
+        "under-not" | "under-not-word" => {
+            argv.push(if c.position == "under-not" { "!" } else { "-not" }.into());
             argv.extend(exec.clone());
             argv.extend(["-printf".to_string(), "F %p\\0".to_string()]);
         }
-        "left-of-or" => {
+        "left-of-or" | "left-of-or-word" => {
             argv.extend(exec.clone());
-            argv.extend(["-o".to_string(), "-printf".to_string(), "F %p\\0".to_string()]);
+            argv.extend([if c.position == "left-of-or" { "-o" } else { "-or" }.to_string(), "-printf".to_string(), "F %p\\0".to_string()]);
+        }
+        "in-group" => {
+            argv.push("(".into());
+            argv.extend(exec.clone());
+            argv.push(")".into());
+            argv.extend(["-printf".to_string(), "T %p\\0".to_string()]);
         }
         "after-false" => {
             argv.push("-false".into());
@@ -246,8 +254,8 @@ fn check_case(ctx: &mut Ctx, ns: &[Vec<u8>], c: &Case) -> Option<(String, String
     let mut want_out: Vec<u8> = vec![];
     for (k, p) in reached.iter().enumerate() {
         let line = match c.position {
-            "before-printf" | "after-name-test" if ok_of(k) => Some(format!("T {}\0", lossy(p))),
-            "under-not" | "left-of-or" if !ok_of(k) => Some(format!("F {}\0", lossy(p))),
+            "before-printf" | "after-name-test" | "in-group" if ok_of(k) => Some(format!("T {}\0", lossy(p))),
+            "under-not" | "left-of-or" | "under-not-word" | "left-of-or-word" if !ok_of(k) => Some(format!("F {}\0", lossy(p))),
             _ => None,
         };
         if let Some(l) = line {
@@ -326,6 +334,21 @@ fn run(ctx: &mut Ctx) {
                         }
                     }
                 }
+            }
+        }
+    }
+    // slice 2a': CMD arguments that look like words of find's own language ( ( ) ! -o , -print + ) are
+    // arguments and nothing else, wherever the action stands (also inside a parenthesised group)
+    for t in OPERATOR_LIKE {
+        for pos in ["before-printf", "in-group", "under-not-word", "left-of-or"] {
+            for execdir in [false, true] {
+                job += 1;
+                if !ctx.mine(job) {
+                    continue;
+                }
+                let tv: Vec<&'static str> = t.to_vec();
+                let c = Case { execdir, template: &tv, script: vec!["0", "1"], position: pos, missing: false, binary: false, missing_kind: "", walk: "plain" };
+                report(ctx, &ns, &c, maxlen);
             }
         }
     }
@@ -611,7 +634,7 @@ fn replay(case: &Value, ctx: &mut Ctx) -> Option<String> {
     let maxlen = case["maxlen"].as_u64()? as usize;
     let ns = names(maxlen);
     build(&ctx.sbx.clone(), &ns).ok()?;
-    let template: Vec<&'static str> = case["template"].as_array()?.iter().filter_map(|v| PIECES.iter().chain(["a{}b{}"].iter()).find(|p| Some(**p) == v.as_str()).copied()).collect();
+    let template: Vec<&'static str> = case["template"].as_array()?.iter().filter_map(|v| PIECES.iter().chain(["a{}b{}", "(", ")", "!", "-o", "-a", ",", "-print", "-quit", "+", "{}+"].iter()).find(|p| Some(**p) == v.as_str()).copied()).collect();
     let script: Vec<&'static str> = case["script"].as_array()?.iter().filter_map(|v| OUTCOMES.iter().find(|p| Some(**p) == v.as_str()).copied()).collect();
     let position = POSITIONS.iter().find(|p| Some(**p) == case["position"].as_str())?;
     let c = Case { execdir: case["execdir"].as_bool()?, template: &template, script, position, missing: case["missing"].as_bool()?, binary: case["binary"].as_bool().unwrap_or(false), missing_kind: ["missing", "noexec", "isdir"].into_iter().find(|w| Some(*w) == case["missing_kind"].as_str()).unwrap_or(if case["missing"].as_bool().unwrap_or(false) { "missing" } else { "" }), walk: ["plain", "depth", "tworoots"].into_iter().find(|w| Some(*w) == case["walk"].as_str()).unwrap_or("plain") };
